@@ -304,4 +304,236 @@ theorem baseRRRR_end_to_end (r : InstRow) (hr : r ∈ instTable.toList) (henc : 
     exact ⟨f, hfmem, by simp [hfull]; simpa [addImm, addReg] using hdesc⟩
   simp [judge, hany]
 
+/-! ### kEncodingBaseCSel (csel, csinc, csinv, csneg) -/
+
+def cselRowOk (name : String) (opcode : Nat) : Bool :=
+  (w32 opcode &&& 0x001FF3FF#32 == 0#32) &&
+  [rtGp32, rtGp64].all fun t =>
+    (formsNamed name).any fun f =>
+      isCSelForm f (wOfRt t) (w32 opcode ||| (BitVec.ofNat 32 (xOf { rt := t, id := 0 } kWX) <<< 31))
+
+set_option maxRecDepth 1000000 in
+theorem rows_baseCSel_have_forms :
+    instTable.toList.all (fun r => r.enc != encBaseCSel ||
+      (match baseCSel[r.idx]? with
+       | some d => cselRowOk r.name d.opcode
+       | none => false)) = true := by decide +kernel
+
+theorem csel_accepts_facts (opc : Nat) (o0 o1 o2 : Reg) (cond : BitVec 64) (ws : List (BitVec 32)) (h : emitCSel opc o0 o1 o2 cond = .ok ws) :
+    checkGpType o0 kWX = true ∧ o0.rt = o1.rt ∧ o1.rt = o2.rt ∧
+    checkGpId o0 idZR = true ∧ checkGpId o1 idZR = true ∧ checkGpId o2 idZR = true ∧ cond.toNat < 16 ∧
+    ws = [w32 opc ||| addImm (xOf o0 kWX) 31 ||| addReg o2.id 16 ||| addImm (condCodeToOpcodeField cond.toNat) 12 ||| addReg o1.id 5 ||| addReg o0.id 0] := by
+  unfold emitCSel at h
+  repeat (split at h <;> try (simp [invalidInstruction, invalidPhysId, invalidImmediate] at h))
+  simp [ok1] at h
+  simp_all [Reg.sameSig]
+  omega
+
+/-- **End-to-end, kEncodingBaseCSel** -/
+theorem csel_end_to_end (r : InstRow) (hr : r ∈ instTable.toList) (henc : r.enc = encBaseCSel)
+    (d : BaseCSelRow) (hd : baseCSel[r.idx]? = some d) (o0 o1 o2 : Reg) (cond : BitVec 64) (p : Nat)
+    (wf0 : GpWellFormed o0) (wf1 : GpWellFormed o1) (wf2 : GpWellFormed o2)
+    (ws : List (BitVec 32)) (pc : BitVec 64) (h : emitCSel d.opcode o0 o1 o2 cond = .ok ws) :
+    judge (formsNamed r.name) r.name [.reg o0, .reg o1, .reg o2, .imm cond p] pc (.ok ws) = .full := by
+  have hrow := (List.all_eq_true.mp rows_baseCSel_have_forms) r hr
+  simp only [henc, bne_self_eq_false, Bool.false_or, hd] at hrow
+  obtain ⟨t0, e1, e2, i0, i1, i2, hcond, hws⟩ := csel_accepts_facts d.opcode o0 o1 o2 cond ws h
+  simp only [cselRowOk, Bool.and_eq_true, beq_iff_eq] at hrow
+  obtain ⟨hclean, hall⟩ := hrow
+  have r0 := gp_rt_of_check o0 kWX (by decide) t0
+  have m0 : o0.rt ∈ [rtGp32, rtGp64] := by simp; exact r0
+  have hcombo := (List.all_eq_true.mp hall) o0.rt m0
+  rw [List.any_eq_true] at hcombo
+  obtain ⟨f, hfmem, hform⟩ := hcombo
+  have ex : xOf { rt := o0.rt, id := 0 } kWX = xOf o0 kWX := rfl
+  rw [ex] at hform
+  have t1 : checkGpType o1 kWX = true := by unfold checkGpType at *; rw [← e1]; exact t0
+  have t2 : checkGpType o2 kWX = true := by unfold checkGpType at *; rw [← e2, ← e1]; exact t0
+  have g0 := gpOk_of_checks o0 kWX idZR (by decide) (Or.inr rfl) wf0 t0 i0
+  have g1 := gpOk_of_checks o1 kWX idZR (by decide) (Or.inr rfl) wf1 t1 i1
+  have g2 := gpOk_of_checks o2 kWX idZR (by decide) (Or.inr rfl) wf2 t2 i2
+  rw [← e1] at g1
+  rw [← e2, ← e1] at g2
+  have hz : (idZR == idSP) = false := by decide
+  rw [hz] at g0 g1 g2
+  have hcf : condCodeToOpcodeField cond.toNat = condField cond.toNat := cond_field_agrees ⟨cond.toNat, hcond⟩
+  have hdesc := csel_describes f _ (w32 d.opcode) (BitVec.ofNat 32 (xOf o0 kWX)) o0 o1 o2 cond p pc hform hclean g0 g1 g2 hcond
+  have hfull : f.isPartial = false := by
+    simp only [isCSelForm, Bool.and_eq_true, beq_iff_eq] at hform
+    obtain ⟨⟨⟨⟨⟨⟨⟨⟨⟨hops, _⟩, _⟩, _⟩, _⟩, hfree⟩, _⟩, _⟩, _⟩, _⟩ := hform
+    simp [Form.isPartial, hops, OpSpec.isPartial, hfree]
+  subst hws
+  have hany : (formsNamed r.name).any (fun f => !f.isPartial && describes f [.reg o0, .reg o1, .reg o2, .imm cond p] pc
+      (w32 d.opcode ||| addImm (xOf o0 kWX) 31 ||| addReg o2.id 16 ||| addImm (condCodeToOpcodeField cond.toNat) 12 ||| addReg o1.id 5 ||| addReg o0.id 0)) = true := by
+    rw [List.any_eq_true]
+    exact ⟨f, hfmem, by simp [hfull]; rw [hcf]; simpa [addImm, addReg] using hdesc⟩
+  simp [judge, hany]
+
+/-! ### kEncodingBaseAddSub, immediate forms (add, adds, sub, subs  Rd, Rn, #imm {, lsl #0|12}) -/
+
+theorem shl24_clean (a : BitVec 32) : (a <<< 24) &&& 0x007FFFFF#32 = 0#32 := by bv_decide
+
+theorem imm12_shifted (imm : BitVec 64) (h : imm &&& ~~~0xFFF000#64 = 0#64) :
+    (imm.toNat >>> 12) * 4096 = imm.toNat ∧ imm.toNat >>> 12 < 4096 := by
+  have h1 : (imm >>> 12) <<< 12 = imm := by bv_decide
+  have h2 : (imm >>> 12).ult 4096#64 = true := by bv_decide
+  have h3 : (imm >>> 12).toNat = imm.toNat >>> 12 := by simp [BitVec.toNat_ushiftRight]
+  have h4 : (imm.toNat >>> 12) < 4096 := by rw [← h3]; simpa [BitVec.ult] using h2
+  refine ⟨?_, h4⟩
+  have := congrArg BitVec.toNat h1
+  rw [BitVec.toNat_shiftLeft, h3, Nat.shiftLeft_eq] at this
+  have hlt : imm.toNat >>> 12 * 2 ^ 12 < 2 ^ 64 := by omega
+  rw [Nat.mod_eq_of_lt hlt] at this
+  omega
+
+def addSubOperandTail (imm : BitVec 64) (p : Nat) (sh : Option (BitVec 64 × Nat)) : List Operand :=
+  match sh with
+  | none => [.imm imm p]
+  | some (s, ps) => [.imm imm p, .imm s ps]
+
+theorem addSubFields_facts (imm : BitVec 64) (shift field shf : Nat) (hk : shift < 2) (h : addSubImmFields imm shift = some (field, shf)) :
+    field < 4096 ∧ shf < 2 ∧ field * (if shf == 1 then 4096 else 1) = imm.toNat * (if shift == 1 then 4096 else 1) := by
+  unfold addSubImmFields at h
+  by_cases hbig : imm.toNat > 0xFFF
+  · simp only [hbig, if_true] at h
+    by_cases hs0 : shift = 0
+    · by_cases hzz : imm &&& ~~~0xFFF000#64 = 0#64
+      · obtain ⟨e1, e2⟩ := imm12_shifted imm hzz
+        simp [hs0] at h
+        obtain ⟨_, rfl, rfl⟩ := h
+        subst hs0
+        simp; omega
+      · have hlit : (~~~0xFFF000#64 : BitVec 64) = 18446744073692778495#64 := by decide
+        rw [hlit] at hzz
+        simp [hs0] at h
+        exact absurd h.1 hzz
+    · simp [hs0] at h
+  · simp only [hbig, if_false, Option.some.injEq, Prod.mk.injEq] at h
+    obtain ⟨rfl, rfl⟩ := h
+    exact ⟨by omega, hk, rfl⟩
+
+theorem addSubShift_facts (sh : Option (BitVec 64 × Nat)) (k : Nat) (h : addSubShiftOf sh = some k) :
+    k < 2 ∧ (sh = none ∧ k = 0 ∨ ∃ s, sh = some (s, sopLSL) ∧ (s.toNat = 0 ∧ k = 0 ∨ s.toNat = 12 ∧ k = 1)) := by
+  unfold addSubShiftOf at h
+  match sh, h with
+  | none, h => simp at h; exact ⟨by omega, Or.inl ⟨rfl, h.symm⟩⟩
+  | some (v, pp), h =>
+    simp only [] at h
+    by_cases hp' : pp = sopLSL
+    · subst hp'
+      by_cases a : v = 0
+      · subst a; simp at h; exact ⟨by omega, Or.inr ⟨0, rfl, Or.inl ⟨rfl, h.symm⟩⟩⟩
+      · by_cases b : v = 12
+        · subst b; simp at h; exact ⟨by omega, Or.inr ⟨12, rfl, Or.inr ⟨rfl, h.symm⟩⟩⟩
+        · simp at h
+          exact absurd (h.1 (by simpa using a)) (by simpa using b)
+    · simp [hp'] at h
+
+theorem addSubImm_accepts_facts (d : BaseAddSubRow) (o0 o1 : Reg) (imm : BitVec 64) (p : Nat) (sh : Option (BitVec 64 × Nat))
+    (ws : List (BitVec 32)) (h : emitAddSubImm d o0 o1 imm sh = .ok ws) :
+    checkGpType o0 kWX = true ∧ o0.rt = o1.rt ∧
+    checkGpId o0 (if (w32 d.immediate_op <<< 24).getLsbD 29 then idZR else idSP) = true ∧ checkGpId o1 idSP = true ∧
+    ∃ field shf, field < 4096 ∧ shf < 2 ∧ addSubTailOk field shf (addSubOperandTail imm p sh) ∧
+      ws = [(w32 d.immediate_op <<< 24) ||| addImm (xOf o0 kWX) 31 ||| addImm shf 22 ||| addImm field 10 ||| addReg o1.id 5 ||| addReg o0.id 0] := by
+  unfold emitAddSubImm at h
+  by_cases c0 : (checkGpType o0 kWX && o0.sameSig o1) = true
+  · simp only [c0, Bool.not_true, Bool.false_eq_true, if_false] at h
+    have ⟨t0, ss⟩ : checkGpType o0 kWX = true ∧ o0.sameSig o1 = true := by simpa using c0
+    have ert : o0.rt = o1.rt := by simp [Reg.sameSig] at ss; exact ss.1.1.1
+    by_cases c1 : (!checkGpId o0 (if (w32 d.immediate_op <<< 24).getLsbD 29 then idZR else idSP) || !checkGpId o1 idSP) = true
+    · simp only [c1, if_true, invalidPhysId] at h; cases h
+    · simp only [c1, Bool.false_eq_true, if_false] at h
+      have ⟨i0, i1⟩ : checkGpId o0 (if (w32 d.immediate_op <<< 24).getLsbD 29 then idZR else idSP) = true ∧ checkGpId o1 idSP = true := by
+        simpa using c1
+      refine ⟨t0, ert, i0, i1, ?_⟩
+      cases hk : addSubShiftOf sh with
+      | none => rw [hk] at h; simp [invalidImmediate] at h
+      | some k =>
+        rw [hk] at h
+        simp only [] at h
+        cases hf : addSubImmFields imm k with
+        | none => rw [hf] at h; simp [invalidImmediate] at h
+        | some fs =>
+          obtain ⟨field, shf⟩ := fs
+          rw [hf] at h
+          simp only [ok1, Result.ok.injEq] at h
+          obtain ⟨hk2, hshape⟩ := addSubShift_facts sh k hk
+          obtain ⟨f1, f2, f3⟩ := addSubFields_facts imm k field shf hk2 hf
+          refine ⟨field, shf, f1, f2, ?_, h.symm⟩
+          rcases hshape with ⟨rfl, rfl⟩ | ⟨s, rfl, ⟨hs0, rfl⟩ | ⟨hs12, rfl⟩⟩
+          · simp [addSubOperandTail, addSubTailOk]; simpa using f3.symm
+          · simp [addSubOperandTail, addSubTailOk, hs0]; simpa using f3.symm
+          · simp [addSubOperandTail, addSubTailOk, hs12]; simpa using f3.symm
+  · simp only [c0, Bool.not_false, if_true, invalidInstruction] at h; cases h
+
+def addSubImmRowOk (name : String) (d : BaseAddSubRow) : Bool :=
+  [rtGp32, rtGp64].all fun t =>
+    (formsNamed name).any fun f =>
+      isAddSubImmForm f (wOfRt t) (!(w32 d.immediate_op <<< 24).getLsbD 29) true
+        ((w32 d.immediate_op <<< 24) ||| (BitVec.ofNat 32 (xOf { rt := t, id := 0 } kWX) <<< 31))
+
+set_option maxRecDepth 1000000 in
+theorem rows_baseAddSub_imm_have_forms :
+    instTable.toList.all (fun r => r.enc != encBaseAddSub ||
+      (match baseAddSub[r.idx]? with
+       | some d => addSubImmRowOk r.name d
+       | none => false)) = true := by decide +kernel
+
+/-- **End-to-end, kEncodingBaseAddSub (immediate forms)**: `add/adds/sub/subs Rd, Rn, #imm {, lsl #0|12}` -/
+theorem addSubImm_end_to_end (r : InstRow) (hr : r ∈ instTable.toList) (henc : r.enc = encBaseAddSub)
+    (d : BaseAddSubRow) (hd : baseAddSub[r.idx]? = some d) (o0 o1 : Reg) (imm : BitVec 64) (p : Nat) (sh : Option (BitVec 64 × Nat))
+    (wf0 : GpWellFormed o0) (wf1 : GpWellFormed o1)
+    (ws : List (BitVec 32)) (pc : BitVec 64) (h : emitAddSubImm d o0 o1 imm sh = .ok ws) :
+    judge (formsNamed r.name) r.name (.reg o0 :: .reg o1 :: addSubOperandTail imm p sh) pc (.ok ws) = .full := by
+  have hrow := (List.all_eq_true.mp rows_baseAddSub_imm_have_forms) r hr
+  simp only [henc, bne_self_eq_false, Bool.false_or, hd] at hrow
+  obtain ⟨t0, e1, i0, i1, field, shf, hfl, hsl, htail, hws⟩ := addSubImm_accepts_facts d o0 o1 imm p sh ws h
+  have r0 := gp_rt_of_check o0 kWX (by decide) t0
+  have m0 : o0.rt ∈ [rtGp32, rtGp64] := by simp; exact r0
+  have hcombo := (List.all_eq_true.mp hrow) o0.rt m0
+  rw [List.any_eq_true] at hcombo
+  obtain ⟨f, hfmem, hform⟩ := hcombo
+  have ex : xOf { rt := o0.rt, id := 0 } kWX = xOf o0 kWX := rfl
+  rw [ex] at hform
+  have t1 : checkGpType o1 kWX = true := by unfold checkGpType at *; rw [← e1]; exact t0
+  have g1 := gpOk_of_checks o1 kWX idSP (by decide) (Or.inl rfl) wf1 t1 i1
+  rw [← e1] at g1
+  have hsp : (idSP == idSP) = true := by decide
+  rw [hsp] at g1
+  have g0 : gpOk (wOfRt o0.rt) (!(w32 d.immediate_op <<< 24).getLsbD 29) o0 := by
+    cases hb : (w32 d.immediate_op <<< 24).getLsbD 29 with
+    | true =>
+      rw [hb] at i0
+      simp only [if_true] at i0
+      have := gpOk_of_checks o0 kWX idZR (by decide) (Or.inr rfl) wf0 t0 i0
+      rw [show (idZR == idSP) = false by decide] at this
+      exact this
+    | false =>
+      rw [hb] at i0
+      simp only [Bool.false_eq_true, if_false] at i0
+      have := gpOk_of_checks o0 kWX idSP (by decide) (Or.inl rfl) wf0 t0 i0
+      rw [hsp] at this
+      exact this
+  have hdesc := addsub_imm_describes f _ _ _ (w32 d.immediate_op <<< 24) (BitVec.ofNat 32 (xOf o0 kWX)) o0 o1 field shf
+    (addSubOperandTail imm p sh) pc hform (shl24_clean _) g0 g1 hfl hsl htail
+  have hfull : f.isPartial = false := by
+    simp only [isAddSubImmForm, Bool.and_eq_true, beq_iff_eq] at hform
+    obtain ⟨⟨⟨⟨⟨⟨⟨⟨⟨hops, _⟩, _⟩, _⟩, _⟩, hfree⟩, _⟩, _⟩, _⟩, _⟩ := hform
+    simp [Form.isPartial, hops, OpSpec.isPartial, hfree]
+  subst hws
+  have hany : (formsNamed r.name).any (fun f => !f.isPartial && describes f (.reg o0 :: .reg o1 :: addSubOperandTail imm p sh) pc
+      ((w32 d.immediate_op <<< 24) ||| addImm (xOf o0 kWX) 31 ||| addImm shf 22 ||| addImm field 10 ||| addReg o1.id 5 ||| addReg o0.id 0)) = true := by
+    rw [List.any_eq_true]
+    exact ⟨f, hfmem, by simp [hfull]; simpa [addImm, addReg] using hdesc⟩
+  cases sh with
+  | none =>
+    have h2 := hany
+    simp only [addSubOperandTail] at h2
+    simp [judge, addSubOperandTail, h2]
+  | some sp =>
+    obtain ⟨s, ps⟩ := sp
+    have h2 := hany
+    simp only [addSubOperandTail] at h2
+    simp [judge, addSubOperandTail, h2]
+
 end AsmjitVerif.C02
